@@ -283,7 +283,8 @@ class ODArray(Mapping):
             var.parent = self
             for attr in ("data_type", "unit", "factor", "min", "max", "default",
                          "access_type", "description", "value_descriptions",
-                         "bit_definitions", "storage_location"):
+                         "bit_definitions", "storage_location", "pdo_mappable",
+                         "relative"):
                 if attr in template.__dict__:
                     var.__dict__[attr] = template.__dict__[attr]
         else:
